@@ -1,7 +1,7 @@
 #!/usr/bin/env python3
 """py2coq_c02 — the source-level tie of C02: the pure helpers of FileResponseMixin (baize/responses.py).
 
-    tools/py2coq_c02.py [--repo /repo] [-o Generated.v]     translate judge_if_range and generate_multipart
+    tools/py2coq_c02.py [--repo /repo] [-o Generated.v]     translate judge_if_range, generate_multipart, generate_common_headers
     tools/py2coq_c02.py --check [--repo /repo]              translate, compile, re-check coq/theories/C02/Translated.v
     tools/py2coq_c02.py --pylib-check                       coq/theories/C02/PyLib.v against this interpreter
 
@@ -14,22 +14,34 @@ definition (one verdict per function).  Helpers (Unsupported, find_function, run
 FAIL CLOSED.  Anything not listed is refused (Unsupported -> verdict None: the tie says nothing, no alarm).
 
 Understood
-  functions    a method / classmethod of the class whose parameters (after self / cls) are annotated str, int,
-               Sequence[Tuple[int, int]] (any type py2coq.parse_type knows) or os.stat_result; straight-line body:
-               a docstring, `x = e` / `x: T = e` with every name assigned at most once and no parameter assigned, a final
-               `return e`.  (Single assignment is what makes the late binding of a lambda's free variables harmless.)
-  expressions  names; int / str / bool literals; + - * on int, + on str; and / or / not on bool; one == or != between two
-               str or two int; tuples; f-strings whose fields are str or int valued without conversion or format (an int
-               field is str(int): PyLib.str_int);
+  functions    a method / classmethod of the class whose parameters (after self / cls) are annotated str, int, Optional[str],
+               Sequence[Tuple[int, int]] (any type py2coq.parse_type knows) or os.stat_result; a docstring, statements, a
+               final `return e` (no return elsewhere)
+  statements   `x = e` / `x: T = e` (never a plain copy `x = y`; in a function that has a lambda or a comprehension every name
+               is assigned at most once and no parameter is assigned: that makes the late binding of the free variables of
+               a closure harmless; elsewhere a second assignment is a new `let` that shadows the first);
+               d["literal or str expression"] = <str> for a local d made by a dict display in this function (PyStr.dict_set:
+               dicts are association lists in insertion order);
+               if / else (a `let` of the tuple of names that are bound with the same type at the end of both branches; a name
+               whose binding or type depends on the branch cannot be used afterwards);
+               try: <str>.encode("latin-1") / except UnicodeEncodeError: A / else: B  (a match on PyLib.encode_latin1);  pass
+  expressions  names; int / str / bool literals; + - * on int, + on str; and / or / not on bool; `x or y` for x a str or
+               Optional[str] and y a str (the value); as the test of an `if`: the truth value of bool / str / Optional[str]
+               operands combined with and / or / not; one == or != between two str or two int, < <= > >= on int; tuples;
+               dict displays with distinct str literal keys and str values; f-strings whose fields are str or int valued
+               without conversion or format (an int field is str(int): PyLib.str_int);
                len(<str or list>), str(<int>), sum(<one generator expression / list comprehension with one `for` over a list
                parameter, no `if`, int valued>) -- the builtins, which the module must not rebind;
                <str>.encode("latin-1") (PyLib.encode_latin1: None is UnicodeEncodeError);
                lambda a, b: e  where the return annotation gives the parameter types (Callable[[int, int], bytes]);
-  oracles      (arguments of the generated function: the theorem quantifies over them, nothing is claimed about them)
+  oracles      (arguments of the generated function, a fixed list per function: the theorem quantifies over them, nothing is
+               claimed about them)
                <self or cls>.generate_etag(<stat>)                         generate_etag : Stat -> str
                formatdate(<int>, usegmt=True)                              formatdate_usegmt : Z -> str
                    formatdate being `from email.utils import formatdate`
                int(<stat>.st_mtime)                                        int_st_mtime : Stat -> Z
+               os.path.basename(<str>)   (`import os`)                     basename : str -> str
+               quote(<str>)   (`from urllib.parse import quote`)           quote : str -> str
                where Stat is an arbitrary type (the os.stat_result parameter).
 """
 import argparse
@@ -47,14 +59,17 @@ paren = py2coq.paren
 
 PID = "C02"
 TARGET = dict(file="baize/responses.py", cls="FileResponseMixin", functions=[
-    dict(func="judge_if_range", name="judge_if_range"),
+    dict(func="judge_if_range", name="judge_if_range", oracles=["generate_etag", "formatdate_usegmt", "int_st_mtime"]),
     dict(func="generate_multipart", name="generate_multipart"),
+    dict(func="generate_common_headers", name="generate_common_headers",
+         oracles=["generate_etag", "formatdate_usegmt", "int_st_mtime", "basename", "quote"]),
 ])
 BUILTINS = ("len", "str", "sum", "int")
 
 HEADER = """(* GENERATED by tools/py2coq_c02.py from the Python source — do not edit.
    Structurally the Python: one let per assignment in source order, the same operand order; library operations are calls of
-   Lib/PyStr.v and C02/PyLib.v; generate_etag, formatdate(.., usegmt=True) and int(<stat>.st_mtime) are arguments. *)
+   Lib/PyStr.v and C02/PyLib.v; generate_etag, formatdate(.., usegmt=True), int(<stat>.st_mtime), os.path.basename and quote are
+   arguments. *)
 From Coq Require Import List NArith ZArith Bool.
 From Baize Require Import Lib.PyStr.
 From Baize Require C02.PyLib.
@@ -118,9 +133,10 @@ def module_bindings(tree):
 # ---------------------------------------------------------------- one function
 
 class Fn:
-    def __init__(self, fdef, bindings):
+    def __init__(self, fdef, bindings, spec_oracles=()):
         self.f = fdef
         self.bindings = bindings
+        self.spec_oracles = list(spec_oracles)
         self.oracles = []       # in order of first use: (argument name, Coq type)
         self.stat_used = False
 
@@ -169,6 +185,20 @@ class Fn:
         parts = [self.expr(x, env, w) for x, w in zip(e.elts, wants)]
         return "(%s)" % ", ".join(p[0] for p in parts), ("tuple", tuple(p[1] for p in parts))
 
+    def e_Dict(self, e, env):
+        if not e.keys or any(k is None for k in e.keys):
+            raise Unsupported(e, "empty dict display or ** in a dict display")
+        keys = [k.value if isinstance(k, ast.Constant) and isinstance(k.value, str) else None for k in e.keys]
+        if None in keys or len(set(keys)) != len(keys):
+            raise Unsupported(e, "dict display whose keys are not distinct str literals")
+        items = []
+        for k, v in zip(e.keys, e.values):
+            c, t = self.expr(v, env)
+            if t != "str":
+                raise Unsupported(v, "dict display with a value that is not a str")
+            items.append("(%s, %s)" % (self.e_Constant(k, env)[0], c))
+        return "[%s]" % ";\n     ".join(items), ("dict", "str", "str")
+
     def e_JoinedStr(self, e, env):
         parts, pending = [], ""
         for v in e.values:
@@ -206,6 +236,12 @@ class Fn:
 
     def e_BoolOp(self, e, env):
         parts = [self.expr(x, env) for x in e.values]
+        if (isinstance(e.op, ast.Or) and len(parts) == 2 and parts[1][1] == "str" and parts[0][1] in ("str", ("option", "str"))):
+            # x or y: x when x is true (a non-empty str), else y
+            (x, tx), (y, _) = parts
+            if tx == "str":
+                return "(if PyStr.is_empty %s then %s else %s)" % (paren(x), y, x), "str"
+            return "(match %s with Some s_ => if PyStr.is_empty s_ then %s else s_ | None => %s end)" % (x, y, y), "str"
         if any(t != "bool" for _, t in parts):
             raise Unsupported(e, "and / or on operands that are not bool (the result would be an operand, not a bool)")
         op = " && " if isinstance(e.op, ast.And) else " || "
@@ -279,6 +315,18 @@ class Fn:
                 raise Unsupported(e, "generate_etag of something that is not the stat parameter")
             self.stat_used = True
             return "%s %s" % (self.oracle("generate_etag", "Stat -> str"), paren(c)), "str"
+        # os.path.basename(<str>), quote(<str>)
+        if (isinstance(f, ast.Attribute) and f.attr == "basename" and isinstance(f.value, ast.Attribute) and f.value.attr == "path"
+                and isinstance(f.value.value, ast.Name) and f.value.value.id == "os" and "os" not in env
+                and self.bindings.get("os") == "module" and len(e.args) == 1):
+            c, t = self.expr(e.args[0], env)
+            if t == "str":
+                return "%s %s" % (self.oracle("basename", "str -> str"), paren(c)), "str"
+        if (isinstance(f, ast.Name) and f.id == "quote" and "quote" not in env
+                and self.bindings.get("quote") == ("urllib.parse", "quote") and len(e.args) == 1):
+            c, t = self.expr(e.args[0], env)
+            if t == "str":
+                return "%s %s" % (self.oracle("quote", "str -> str"), paren(c)), "str"
         if self.builtin(e, env, "len") and len(e.args) == 1:
             c, t = self.expr(e.args[0], env)
             if t == "str" or (isinstance(t, tuple) and t[0] == "list"):
@@ -367,36 +415,131 @@ class Fn:
             body = body[1:]
         if not body or not isinstance(body[-1], ast.Return) or body[-1].value is None:
             raise Unsupported(f, "the body does not end with `return <expression>`")
-        lets = []
-        for s in body[:-1]:
-            if isinstance(s, ast.Assign) and len(s.targets) == 1 and isinstance(s.targets[0], ast.Name):
-                target, value = s.targets[0].id, s.value
-            elif isinstance(s, ast.AnnAssign) and isinstance(s.target, ast.Name) and s.value is not None and s.simple:
-                target, value = s.target.id, s.value
-            else:
-                raise Unsupported(s, "statement (only single assignments to a name before the final return)")
-            if target in env or target == self.receiver or target in BUILTINS or target == "formatdate":
-                raise Unsupported(s, "a name is assigned twice, or a parameter / builtin is assigned")
-            c, t = self.expr(value, env)
-            if isinstance(t, tuple) and t[0] == "fun":
-                raise Unsupported(s, "a lambda bound to a name")
-            lets.append("  let %s := %s in" % (self.var(target), c))
-            env[target] = t
+        for n in ast.walk(f):
+            if n is not f and isinstance(n, (ast.NamedExpr, ast.Global, ast.Nonlocal, ast.Yield, ast.YieldFrom, ast.Await, ast.FunctionDef,
+                                             ast.AsyncFunctionDef, ast.ClassDef)):
+                raise Unsupported(n, "walrus / global / nonlocal / yield / nested def")
+        # a closure (lambda, comprehension) sees the LAST value of a free variable: only single assignment makes that the value
+        # at the point where the closure is written
+        self.closures = any(isinstance(n, (ast.Lambda, ast.GeneratorExp, ast.ListComp, ast.SetComp, ast.DictComp)) for n in ast.walk(f))
+        self.params = {n for n, _ in params}
+        lets, _ = self.stmts(body[:-1], env, 1)
         c, t = self.expr(body[-1].value, env, rtype)
         if rtype is not None and t != rtype:
             raise Unsupported(body[-1], "the returned value is a %s, the annotation says %s" % (t, rtype))
-        for n in ast.walk(f):
-            if isinstance(n, (ast.NamedExpr, ast.Global, ast.Nonlocal, ast.Yield, ast.YieldFrom, ast.Await)):
-                raise Unsupported(n, "walrus / global / nonlocal / yield")
+        declared = self.spec_oracles
+        if [o for o, _ in self.oracles if o not in declared]:
+            raise Unsupported(f, "uses an oracle that is not declared for this function: %s" % [o for o, _ in self.oracles if o not in declared])
         args = []
-        if self.stat_used or any(t == "stat" for _, t in params):
+        if any(o in ("generate_etag", "int_st_mtime") for o in declared):
             args.append("{Stat : Type}")
-        args += ["(%s : %s)" % (n, ty) for n, ty in sorted(self.oracles, key=lambda o: ORACLE_ORDER.index(o[0]))]
+        args += ["(%s : %s)" % (o, ORACLE_TYPES[o]) for o in declared]
         args += ["(%s : %s)" % (self.var(n), coq_type(t)) for n, t in params]
         return "Definition %s %s :=\n%s\n  %s.\n" % (name, " ".join(args), "\n".join(lets), c) if lets else \
                "Definition %s %s :=\n  %s.\n" % (name, " ".join(args), c)
 
+    # ---- statements: -> (lines of `let .. in`, names assigned); env is updated in place
+    def assign(self, s, target, env):
+        if target == self.receiver or target in BUILTINS or target in ("formatdate", "quote", "os", "UnicodeEncodeError"):
+            raise Unsupported(s, "a builtin / module name is assigned")
+        if self.closures and (target in env or target in self.params):
+            raise Unsupported(s, "a name is assigned twice (or a parameter is assigned) in a function that has a lambda / comprehension")
 
+    def stmts(self, body, env, ind):
+        pad = "  " * ind
+        lines, assigned = [], set()
+        for s in body:
+            if isinstance(s, ast.Pass):
+                continue
+            if (isinstance(s, ast.Assign) and len(s.targets) == 1 and isinstance(s.targets[0], ast.Name)) or \
+               (isinstance(s, ast.AnnAssign) and isinstance(s.target, ast.Name) and s.value is not None and s.simple):
+                target = s.targets[0].id if isinstance(s, ast.Assign) else s.target.id
+                self.assign(s, target, env)
+                if isinstance(s.value, ast.Name):
+                    raise Unsupported(s, "a plain copy of a name (it would be an alias if the object is mutable)")
+                c, t = self.expr(s.value, env)
+                if isinstance(t, tuple) and t[0] == "fun":
+                    raise Unsupported(s, "a lambda bound to a name")
+                if isinstance(s, ast.AnnAssign) and parse_type(s.annotation) != t:
+                    raise Unsupported(s, "the value is a %s, the annotation says otherwise" % (t,))
+                lines.append("%slet %s := %s in" % (pad, self.var(target), c))
+                env[target] = t
+                assigned.add(target)
+            elif (isinstance(s, ast.Assign) and len(s.targets) == 1 and isinstance(s.targets[0], ast.Subscript)
+                  and isinstance(s.targets[0].value, ast.Name)):
+                d = s.targets[0].value.id
+                if d in self.params or env.get(d) != ("dict", "str", "str"):
+                    raise Unsupported(s, "item assignment to something that is not a local Dict[str, str] made in this function")
+                k, tk = self.expr(s.targets[0].slice, env)
+                v, tv = self.expr(s.value, env)
+                if tk != "str" or tv != "str":
+                    raise Unsupported(s, "item assignment with a key / value that is not a str")
+                lines.append("%slet %s := PyStr.dict_set %s %s %s in" % (pad, self.var(d), paren(k), paren(v), self.var(d)))
+                assigned.add(d)
+            elif isinstance(s, ast.If):
+                c = self.cond(s.test, env)
+                lines += self.branches(s, env, ind, assigned, "if %s then" % c, s.body, "else", s.orelse)
+            elif isinstance(s, ast.Try):
+                # try: <str>.encode("latin-1")  except UnicodeEncodeError: A  else: B
+                if (s.finalbody or len(s.handlers) != 1 or len(s.body) != 1 or not isinstance(s.body[0], ast.Expr)
+                        or s.handlers[0].name is not None or not isinstance(s.handlers[0].type, ast.Name)
+                        or s.handlers[0].type.id != "UnicodeEncodeError" or "UnicodeEncodeError" in env
+                        or "UnicodeEncodeError" in self.bindings):
+                    raise Unsupported(s, "try statement (only: try: <str>.encode('latin-1') / except UnicodeEncodeError: / else:)")
+                c, t = self.expr(s.body[0].value, env)
+                if t != "bytes":
+                    raise Unsupported(s, "try body is not <str>.encode('latin-1')")
+                lines += self.branches(s, env, ind, assigned, "match %s with None =>" % c, s.handlers[0].body, "| Some _ =>", s.orelse,
+                                       close=" end")
+            else:
+                raise Unsupported(s, "statement not understood")
+        return lines, assigned
+
+    def branches(self, s, env, ind, assigned, head1, body1, head2, body2, close=""):
+        pad = "  " * ind
+        e1, e2 = dict(env), dict(env)
+        l1, a1 = self.stmts(body1, e1, ind + 2)
+        l2, a2 = self.stmts(body2, e2, ind + 2)
+        both = sorted(a1 | a2)
+        carried = [n for n in both if n in e1 and n in e2 and e1[n] == e2[n]]
+        for n in both:
+            env.pop(n, None)            # a name whose binding or type depends on the branch is not available afterwards
+        if not carried:
+            return []                   # nothing that is visible afterwards is computed here (expressions cannot raise)
+        for n in carried:
+            env[n] = e1[n]
+        assigned.update(carried)
+        tup = self.var(carried[0]) if len(carried) == 1 else "(%s)" % ", ".join(self.var(n) for n in carried)
+        pat = self.var(carried[0]) if len(carried) == 1 else "'%s" % tup
+        inner = "  " * (ind + 2)
+        return (["%slet %s :=" % (pad, pat), "%s  %s (" % (pad, head1)] + l1 + ["%s%s)" % (inner, tup), "%s  %s (" % (pad, head2)]
+                + l2 + ["%s%s)%s in" % (inner, tup, close)])
+
+    def truth(self, e, env):
+        c, t = self.expr(e, env)
+        if t == "bool":
+            return paren(c)
+        if t == "str":
+            return "(negb (PyStr.is_empty %s))" % paren(c)
+        if t == ("option", "str"):
+            return "(match %s with Some s_ => negb (PyStr.is_empty s_) | None => false end)" % c
+        raise Unsupported(e, "truth value of a %s" % (t,))
+
+    def cond(self, e, env):
+        """the truth value of e as a bool: bool(a or b) = bool(a) or bool(b), bool(a and b) = bool(a) and bool(b)"""
+        if isinstance(e, ast.BoolOp):
+            op = " && " if isinstance(e.op, ast.And) else " || "
+            text = self.cond(e.values[0], env)
+            for x in e.values[1:]:
+                text = "(%s%s%s)" % (text, op, self.cond(x, env))
+            return text
+        if isinstance(e, ast.UnaryOp) and isinstance(e.op, ast.Not):
+            return "(negb %s)" % self.cond(e.operand, env)
+        return self.truth(e, env)
+
+
+ORACLE_TYPES = {"generate_etag": "Stat -> str", "formatdate_usegmt": "Z -> str", "int_st_mtime": "Stat -> Z",
+                "basename": "str -> str", "quote": "str -> str"}
 ORACLE_ORDER = ["generate_etag", "formatdate_usegmt", "int_st_mtime"]
 
 
@@ -442,7 +585,7 @@ def translate_all(repo):
     for spec in TARGET["functions"]:
         try:
             fdef = py2coq.find_function(tree, "%s.%s" % (TARGET["cls"], spec["func"]))
-            text = Fn(fdef, bindings).translate(spec["name"])
+            text = Fn(fdef, bindings, spec.get("oracles", ())).translate(spec["name"])
             seg = ast.get_source_segment(src, fdef) or ""
             head = "(* %s :: %s.%s, lines %d-%d\n%s\n*)\n" % (
                 TARGET["file"], TARGET["cls"], spec["func"], fdef.lineno, fdef.end_lineno,
